@@ -38,7 +38,7 @@ CLAIMED.update({
     "C10": dict(
         engine="B",
         technique="deterministic simulation: seeded cache histories on EcCurve objects (named singletons and tiny prime-order curves, exhaustive x on the tiny ones) with restarts and allocation failures inside the table build, planted-log oracle from independent arithmetic; plus check-level histories in engine A",
-        text="BatchDL / BatchDLOfDifferences / BatchMultiplyG calls of different bounds and list lengths are interleaved on the same curve object so that each call meets a table left by a larger, smaller or differently-purposed earlier call; on tiny prime-order curves every x below the bound is checked for every (bound, length, history prefix) visited, on named curves x is biased to table and giant-step edges; close pairs must be flagged on both sides, identical keys not, relations must verify. A non-gating asynchronous-abort probe (sys.monitoring line events) reports ROBUSTNESS-NOTE only. Engine A plants statement-derived structured private keys (all shifts that are multiples of 8, repeated words, boundary values) and small-difference pairs into EC histories, including tables above 2^20 entries.",
+        text="BatchDL / BatchDLOfDifferences / BatchMultiplyG calls of different bounds and list lengths are interleaved on the same curve object so that each call meets a table left by a larger, smaller or differently-purposed earlier call; on tiny prime-order curves every x below the bound is checked for every (bound, length, history prefix) visited, on named curves x is biased to table and giant-step edges; close pairs must be flagged on both sides, identical keys not, relations must verify. A directed batch-scale plan hands BatchDLOfDifferences a history of more than 2^17 keys with close keys planted around every block boundary from 2^12. A non-gating asynchronous-abort probe (sys.monitoring line events) reports ROBUSTNESS-NOTE only. Engine A plants statement-derived structured private keys (all shifts that are multiples of 8, repeated words, boundary values) and small-difference pairs into EC histories, including tables above 2^20 entries.",
         note="Trusts: the independent affine arithmetic used for ground truth; tiny curves from brute-force point counting.",
         design_ref="DESIGN.md §4 C10"),
     "C13": dict(
